@@ -94,6 +94,136 @@ impl NodeRefCount {
     }
 }
 
+/// Verification hook (only with `--cfg rten_verif`): event log of `run_plan`'s
+/// bookkeeping decisions and a "never run in place" reference switch.
+///
+/// The log is process-global rather than thread-local because `Graph::run`
+/// executes `run_plan` on a thread of the selected thread pool.
+#[cfg(rten_verif)]
+#[doc(hidden)]
+pub mod verif_exec {
+    use std::sync::Mutex;
+    use std::sync::atomic::{AtomicBool, Ordering};
+
+    /// One bookkeeping event. `depth` is 0 for the top-level `run_plan` call
+    /// and increases by one for each nested subgraph run.
+    #[derive(Clone, Debug, PartialEq)]
+    pub enum Event {
+        /// Entry of `run_plan` (after owned inputs were moved to `temp_values`).
+        Begin {
+            depth: usize,
+            /// Address of the `Graph` being run.
+            graph: usize,
+            plan: Vec<u32>,
+            /// (id, len) of inputs passed as owned values, in argument order.
+            owned: Vec<(u32, usize)>,
+            /// (id, len) of inputs passed as views, in argument order.
+            borrowed: Vec<(u32, usize)>,
+            outputs: Vec<u32>,
+            /// Whether a capture environment was passed (subgraph run).
+            has_captures: bool,
+            /// For each id in `Graph::captures()`: (id, len if `get_input`
+            /// finds a value, `can_take_input`).
+            captures: Vec<(u32, Option<usize>, bool)>,
+            use_pool: bool,
+        },
+        /// A plan step starts.
+        Step { depth: usize, op: u32 },
+        /// The in-place decision for the current step and the (pos, id)s taken.
+        InPlace {
+            depth: usize,
+            run_in_place: bool,
+            taken: Vec<(usize, u32)>,
+        },
+        /// A dependency was moved by value into the subgraph capture map.
+        ByValue { depth: usize, id: u32 },
+        /// An operator output was stored in `temp_values`.
+        Stored { depth: usize, id: u32, len: usize },
+        /// A value was removed from `temp_values` and released to the pool.
+        Released { depth: usize, id: u32 },
+        /// A requested output was collected; `from_temp` is true if it was
+        /// removed from `temp_values`, false if copied from a constant, input
+        /// or capture.
+        Output { depth: usize, id: u32, from_temp: bool },
+        /// Exit of `run_plan` (normal return, error return or unwinding).
+        End { depth: usize },
+    }
+
+    struct State {
+        enabled: bool,
+        depth: usize,
+        events: Vec<Event>,
+    }
+
+    static STATE: Mutex<State> = Mutex::new(State {
+        enabled: false,
+        depth: 0,
+        events: Vec::new(),
+    });
+    static NEVER_IN_PLACE: AtomicBool = AtomicBool::new(false);
+
+    fn state() -> std::sync::MutexGuard<'static, State> {
+        STATE.lock().unwrap_or_else(|e| e.into_inner())
+    }
+
+    /// Start recording (clears the log and resets the depth counter).
+    pub fn start_trace() {
+        let mut st = state();
+        st.enabled = true;
+        st.depth = 0;
+        st.events.clear();
+    }
+
+    /// Stop recording and return the recorded events.
+    pub fn take_trace() -> Vec<Event> {
+        let mut st = state();
+        st.enabled = false;
+        st.depth = 0;
+        std::mem::take(&mut st.events)
+    }
+
+    /// Reference mode: when set, `run_plan` never runs an operator in place.
+    pub fn set_never_in_place(on: bool) {
+        NEVER_IN_PLACE.store(on, Ordering::SeqCst);
+    }
+
+    pub(super) fn never_in_place() -> bool {
+        NEVER_IN_PLACE.load(Ordering::SeqCst)
+    }
+
+    pub(super) fn record(make: impl FnOnce(usize) -> Event) {
+        let mut st = state();
+        if st.enabled {
+            let depth = st.depth.saturating_sub(1);
+            st.events.push(make(depth));
+        }
+    }
+
+    /// Guard created at `run_plan` entry; emits `End` when dropped.
+    pub(super) struct RunGuard(());
+
+    pub(super) fn begin(make: impl FnOnce(usize) -> Event) -> RunGuard {
+        let mut st = state();
+        if st.enabled {
+            let depth = st.depth;
+            st.events.push(make(depth));
+        }
+        st.depth += 1;
+        RunGuard(())
+    }
+
+    impl Drop for RunGuard {
+        fn drop(&mut self) {
+            let mut st = state();
+            st.depth = st.depth.saturating_sub(1);
+            if st.enabled {
+                let depth = st.depth;
+                st.events.push(Event::End { depth });
+            }
+        }
+    }
+}
+
 /// Options that control logging and other behaviors when executing a
 /// [`Model`](crate::Model).
 ///
@@ -895,12 +1025,16 @@ impl Graph {
         //
         // This enables these inputs to be used for in-place operations or
         // returned directly as outputs.
+        #[cfg(rten_verif)]
+        let mut verif_owned: Vec<(u32, usize)> = Vec::new();
         let mut idx = 0;
         while idx < inputs.len() {
             if matches!(inputs[idx], (_, ValueOrView::Value(_))) {
                 let (node_id, ValueOrView::Value(outp)) = inputs.remove(idx) else {
                     unreachable!();
                 };
+                #[cfg(rten_verif)]
+                verif_owned.push((node_id.as_u32(), outp.len()));
                 temp_values.insert(node_id, outp);
             } else {
                 idx += 1;
@@ -954,6 +1088,38 @@ impl Graph {
         // still come from the system allocator.
         let use_pool = env_flag("RTEN_USE_POOL", true);
 
+        #[cfg(rten_verif)]
+        let _verif_guard = verif_exec::begin(|depth| verif_exec::Event::Begin {
+            depth,
+            graph: self as *const Graph as usize,
+            plan: plan.iter().map(|id| id.as_u32()).collect(),
+            owned: verif_owned,
+            borrowed: inputs
+                .iter()
+                .map(|(id, v)| (id.as_u32(), v.as_view().len()))
+                .collect(),
+            outputs: outputs.iter().map(|id| id.as_u32()).collect(),
+            has_captures: captures.is_some(),
+            captures: self
+                .captures
+                .iter()
+                .map(|&id| {
+                    let name = self.nodes.get(&id).and_then(|n| n.name());
+                    let len = name.and_then(|name| {
+                        captures
+                            .as_ref()
+                            .and_then(|c| c.get_input(name))
+                            .map(|v| v.len())
+                    });
+                    let takeable = name
+                        .and_then(|name| captures.as_ref().map(|c| c.can_take_input(name)))
+                        .unwrap_or(false);
+                    (id.as_u32(), len, takeable)
+                })
+                .collect(),
+            use_pool,
+        });
+
         // Execute the plan
         let mut op_start = Instant::now();
 
@@ -963,6 +1129,11 @@ impl Graph {
                     RunErrorImpl::PlanningError("operator node not found".to_string()).into(),
                 );
             };
+            #[cfg(rten_verif)]
+            verif_exec::record(|depth| verif_exec::Event::Step {
+                depth,
+                op: op_node_id.as_u32(),
+            });
 
             // Choose the inputs that we'll try to modify in-place to avoid
             // allocating new buffers for the outputs.
@@ -1021,6 +1192,10 @@ impl Graph {
                                     .unwrap_or(false)))
                 });
 
+            // Reference mode of the verification hook: never run in place.
+            #[cfg(rten_verif)]
+            let run_in_place = run_in_place && !verif_exec::never_in_place();
+
             // Take a value for passing to an operator as an owned value, if
             // it won't be needed by other operators in future.
             let mut take_value = |node_id| {
@@ -1047,6 +1222,15 @@ impl Graph {
             } else {
                 SmallVec::new()
             };
+            #[cfg(rten_verif)]
+            verif_exec::record(|depth| verif_exec::Event::InPlace {
+                depth,
+                run_in_place,
+                taken: in_place_taken
+                    .iter()
+                    .map(|(pos, id, _)| (*pos, id.as_u32()))
+                    .collect(),
+            });
 
             // Extract values used by the operator's subgraphs which can be
             // passed by value.
@@ -1058,6 +1242,11 @@ impl Graph {
                         continue;
                     }
                     if let Some(tensor) = take_value(node_id) {
+                        #[cfg(rten_verif)]
+                        verif_exec::record(|depth| verif_exec::Event::ByValue {
+                            depth,
+                            id: node_id.as_u32(),
+                        });
                         by_value_captures.insert(node_id, tensor);
                     }
                 }
@@ -1210,6 +1399,17 @@ impl Graph {
                 .into());
             }
 
+            #[cfg(rten_verif)]
+            for (output_id, output) in op_node.output_ids().iter().zip(outputs.iter()) {
+                if let Some(id) = output_id {
+                    verif_exec::record(|depth| verif_exec::Event::Stored {
+                        depth,
+                        id: id.as_u32(),
+                        len: output.len(),
+                    });
+                }
+            }
+
             // Save outputs for future steps.
             temp_values.extend(
                 op_node
@@ -1226,6 +1426,11 @@ impl Graph {
                     && use_pool
                     && let Some(tensor) = temp_values.remove(node_id)
                 {
+                    #[cfg(rten_verif)]
+                    verif_exec::record(|depth| verif_exec::Event::Released {
+                        depth,
+                        id: node_id.as_u32(),
+                    });
                     tensor.add_to_pool(pool)
                 }
             }
@@ -1258,6 +1463,17 @@ impl Graph {
         let result = outputs
             .iter()
             .map(|output_id| {
+                #[cfg(rten_verif)]
+                {
+                    let from_temp = get_value_from_constant_or_input(*output_id).is_none()
+                        && get_value_from_capture(&self.nodes, captures.as_ref(), *output_id)
+                            .is_none();
+                    verif_exec::record(|depth| verif_exec::Event::Output {
+                        depth,
+                        id: output_id.as_u32(),
+                        from_temp,
+                    });
+                }
                 if let Some(value) = get_value_from_constant_or_input(*output_id) {
                     value.to_owned()
                 } else if let Some(value) =
